@@ -60,9 +60,10 @@ pub(crate) fn model_from_utf8(v: &[u8]) -> Result<&str, core::str::Utf8Error> {
     if ok {
         Ok(unsafe { core::str::from_utf8_unchecked(v) })
     } else {
-        // obtain a genuine Utf8Error value through a tiny concrete call
-        const BAD: [u8; 1] = [0xFF];
-        match core::str::from_utf8(&BAD) {
+        // obtain a genuine Utf8Error value through a tiny concrete call of the real validator
+        // (from_utf8_mut, because from_utf8 itself is what this model replaces)
+        let mut bad: [u8; 1] = [0xFF];
+        match core::str::from_utf8_mut(&mut bad) {
             Err(e) => Err(e),
             Ok(_) => unreachable!(),
         }
